@@ -147,6 +147,9 @@ class Ctx:
             raise
         except env.HarnessError:
             raise
+        except env.LibraryFault as e:
+            self.fail(f"{key}/{e.key}", f"{what}: {e}")
+            return False, None
         except Exception as e:  # noqa
             where = lib_frame(e)
             if where is None:
@@ -183,8 +186,9 @@ class Sub:
 
     def __init__(self, name, run, kind="given", strategy=None, machine=None, enumerate=None,
                  custom=None, budget=(200, 2000), shards=(1, 16), rule="", steps=(25, 50),
-                 nontrivial_required=True, fuzz_target=None):
+                 nontrivial_required=True, fuzz_target=None, tz=None):
         self.name, self.run, self.kind = name, run, kind
+        self.tz = tz   # POSIX TZ string: the sub-check runs with the process in that time zone (default: the wrapper's TZ=UTC)
         self.strategy, self.machine, self.enumerate, self.custom = strategy, machine, enumerate, custom
         self.budget, self.shards, self.rule, self.steps = budget, shards, rule, steps
         self.nontrivial_required = nontrivial_required
@@ -238,6 +242,8 @@ def safe_run(ctx, sub, case):
         return None
     except (Violation, env.HarnessError):
         raise
+    except env.LibraryFault as e:
+        ctx.fail(f"library-fault/{e.key}", str(e))
     except Exception as e:  # noqa
         where = lib_frame(e)
         if where is None:
@@ -253,6 +259,8 @@ def guard(ctx, fn):
         return r
     except (Violation, env.HarnessError, Abandon):
         raise
+    except env.LibraryFault as e:
+        ctx.fail(f"library-fault/{e.key}", str(e))
     except Exception as e:  # noqa
         where = lib_frame(e)
         if where is None:
@@ -479,6 +487,27 @@ def drive_fuzz(ctx, sub):
         shutil.rmtree(out, ignore_errors=True)
 
 
+class zone:
+    """run a block of code with the process in another time zone (restored afterwards)"""
+
+    def __init__(self, tz):
+        self.tz = tz
+
+    def __enter__(self):
+        if self.tz:
+            self.old = os.environ.get("TZ")
+            os.environ["TZ"] = self.tz
+            time.tzset()
+
+    def __exit__(self, *a):
+        if self.tz:
+            if self.old is None:
+                os.environ.pop("TZ", None)
+            else:
+                os.environ["TZ"] = self.old
+            time.tzset()
+
+
 def run_task(task):
     """Executed in a worker process. task = (prop, subname, tier, seed, shard, nshards, known, deadline)"""
     prop, subname, tier, seed_, shard, nshards, known, deadline = task
@@ -487,18 +516,19 @@ def run_task(task):
         from . import registry
 
         sub = registry.get_sub(prop, subname)
-        if sub.kind == "given":
-            drive_given(ctx, sub)
-        elif sub.kind == "machine":
-            drive_machine(ctx, sub)
-        elif sub.kind == "enum":
-            drive_enum(ctx, sub)
-        elif sub.kind == "custom":
-            sub.custom(ctx, sub)
-        elif sub.kind == "fuzz":
-            drive_fuzz(ctx, sub)
-        else:
-            raise env.HarnessError(f"unknown kind {sub.kind}")
+        with zone(sub.tz):
+            if sub.kind == "given":
+                drive_given(ctx, sub)
+            elif sub.kind == "machine":
+                drive_machine(ctx, sub)
+            elif sub.kind == "enum":
+                drive_enum(ctx, sub)
+            elif sub.kind == "custom":
+                sub.custom(ctx, sub)
+            elif sub.kind == "fuzz":
+                drive_fuzz(ctx, sub)
+            else:
+                raise env.HarnessError(f"unknown kind {sub.kind}")
         res = ctx.result()
         res["error"] = None
     except BaseException as e:  # harness error in this task
@@ -530,7 +560,8 @@ def replay_file(path, known=()):
     sub = registry.get_sub(doc["property"], doc["subcheck"])
     ctx = Ctx(doc["property"], doc["subcheck"], "quick", 0, known=known)
     try:
-        safe_run(ctx, sub, doc["case"])
+        with zone(sub.tz):
+            safe_run(ctx, sub, doc["case"])
     except Violation as v:
         return v, ctx
     return None, ctx
